@@ -1,0 +1,160 @@
+//go:build verif
+
+package main
+
+import (
+	"context"
+	"encoding/hex"
+	"encoding/json"
+	"os"
+	"testing"
+
+	"github.com/ethereum/go-ethereum/rlp"
+
+	"github.com/vechain/thor/v2/block"
+	"github.com/vechain/thor/v2/chain"
+	"github.com/vechain/thor/v2/logdb"
+	"github.com/vechain/thor/v2/muxdb"
+	"github.com/vechain/thor/v2/tx"
+)
+
+// Verification hook (build tag verif, test binary only): drives the unexported start-up re-sync of the log db
+// (syncLogDB / seekLogDBSyncPosition / verifyLogDB in sync_logdb.go) on inputs prepared by the C15 harness and dumps
+// what they return and the resulting tables.  No logic beyond decoding the inputs and encoding the observables.
+//
+// VERIF_SYNCLOG_IN: JSON list of cases; VERIF_SYNCLOG_OUT: JSON list of results (same order).
+// Without VERIF_SYNCLOG_IN the test does nothing.
+
+type verifSyncBlock struct {
+	Block     string `json:"b"` // hex RLP of the block
+	Receipts  string `json:"r"` // hex RLP of its receipts
+	Conflicts uint32 `json:"c"`
+	Best      bool   `json:"best"`
+}
+
+type verifSyncPreOp struct {
+	Write    *int    `json:"w,omitempty"` // Writer.Write(blocks[w])
+	Truncate *uint32 `json:"t,omitempty"` // Writer.Truncate(t)
+}
+
+type verifSyncCase struct {
+	Genesis   string           `json:"genesis"` // hex RLP
+	Blocks    []verifSyncBlock `json:"blocks"`
+	Pre       []verifSyncPreOp `json:"pre"`                  // log db pre-state: writer operations, committed once
+	VerifyEnd *uint32          `json:"verify_end,omitempty"` // call verifyLogDB(end) alone on the pre-state
+	Verify    bool             `json:"verify"`               // the verify argument of syncLogDB
+}
+
+type verifSyncResult struct {
+	Fatal     string            `json:"fatal,omitempty"` // the inputs could not be built
+	SeekPos   uint32            `json:"seek_pos"`
+	SeekErr   bool              `json:"seek_err"`
+	VerifyRun bool              `json:"verify_run"`
+	VerifyErr bool              `json:"verify_err"`
+	SyncErr   bool              `json:"sync_err"`
+	Events    []*logdb.Event    `json:"events"`
+	Transfers []*logdb.Transfer `json:"transfers"`
+}
+
+func verifSyncRunCase(c *verifSyncCase) (res verifSyncResult) {
+	fatal := func(err error) verifSyncResult { return verifSyncResult{Fatal: err.Error()} }
+	decode := func(s string, v any) error {
+		raw, err := hex.DecodeString(s)
+		if err != nil {
+			return err
+		}
+		return rlp.DecodeBytes(raw, v)
+	}
+
+	var genesis block.Block
+	if err := decode(c.Genesis, &genesis); err != nil {
+		return fatal(err)
+	}
+	db := muxdb.NewMem()
+	defer db.Close()
+	repo, err := chain.NewRepository(db, &genesis)
+	if err != nil {
+		return fatal(err)
+	}
+	blocks := make([]*block.Block, len(c.Blocks))
+	receipts := make([]tx.Receipts, len(c.Blocks))
+	for i, sb := range c.Blocks {
+		var b block.Block
+		if err := decode(sb.Block, &b); err != nil {
+			return fatal(err)
+		}
+		var rs tx.Receipts
+		if err := decode(sb.Receipts, &rs); err != nil {
+			return fatal(err)
+		}
+		if err := repo.AddBlock(&b, rs, sb.Conflicts, sb.Best); err != nil {
+			return fatal(err)
+		}
+		blocks[i], receipts[i] = &b, rs
+	}
+
+	logDB, err := logdb.NewMem()
+	if err != nil {
+		return fatal(err)
+	}
+	defer logDB.Close()
+	w := logDB.NewWriter()
+	for _, op := range c.Pre {
+		if op.Write != nil {
+			if err := w.Write(blocks[*op.Write], receipts[*op.Write]); err != nil {
+				return fatal(err)
+			}
+		}
+		if op.Truncate != nil {
+			if err := w.Truncate(*op.Truncate); err != nil {
+				return fatal(err)
+			}
+		}
+	}
+	if err := w.Commit(); err != nil {
+		return fatal(err)
+	}
+
+	ctx := context.Background()
+	pos, err := seekLogDBSyncPosition(repo, logDB)
+	res.SeekPos, res.SeekErr = pos, err != nil
+	if c.VerifyEnd != nil {
+		res.VerifyRun = true
+		res.VerifyErr = verifyLogDB(ctx, *c.VerifyEnd, repo, logDB) != nil
+	}
+	res.SyncErr = syncLogDB(ctx, repo, logDB, c.Verify) != nil
+
+	if res.Events, err = logDB.FilterEvents(ctx, nil); err != nil {
+		return fatal(err)
+	}
+	if res.Transfers, err = logDB.FilterTransfers(ctx, nil); err != nil {
+		return fatal(err)
+	}
+	return res
+}
+
+func TestVerifSyncLogDB(t *testing.T) {
+	in := os.Getenv("VERIF_SYNCLOG_IN")
+	if in == "" {
+		return
+	}
+	raw, err := os.ReadFile(in)
+	if err != nil {
+		t.Fatal(err)
+	}
+	var cases []verifSyncCase
+	if err := json.Unmarshal(raw, &cases); err != nil {
+		t.Fatal(err)
+	}
+	results := make([]verifSyncResult, len(cases))
+	for i := range cases {
+		results[i] = verifSyncRunCase(&cases[i])
+	}
+	out, err := json.Marshal(results)
+	if err != nil {
+		t.Fatal(err)
+	}
+	if err := os.WriteFile(os.Getenv("VERIF_SYNCLOG_OUT"), out, 0o644); err != nil {
+		t.Fatal(err)
+	}
+}
